@@ -129,6 +129,12 @@ def _case(draw, tier):
     elif fmt == "vertices":
         mesh = draw(_mesh(big))
         d = {"latlon": draw(st.booleans()), "container": draw(sampled_from(["ndarray", "list", "tuple"])), "via_open_grid": draw(st.booleans())}
+        if draw(st.integers(0, 4)) == 0:
+            # one face only, handed over as a two-dimensional array (the documented short form)
+            f0 = mesh["faces"][draw(st.integers(0, 50)) % len(mesh["faces"])]
+            used = sorted(set(f0))
+            mesh = {"nodes": [mesh["nodes"][o] for o in used], "faces": [[used.index(i) for i in f0]], "family": "single-face"}
+            d["single_2d"] = True
     elif fmt == "topology":
         mesh = draw(_mesh(big))
         d = {
@@ -480,6 +486,9 @@ def run_case(case, ctx):
             for i, f in enumerate(mesh["faces"]):
                 arr[i, : len(f)] = [xyz[k] for k in f]
         site += ":latlon" if d["latlon"] else ":xyz"
+        if d.get("single_2d"):
+            arr = arr[0]
+            site += ":single-face-2d"
         obj = arr if d["container"] == "ndarray" else (arr.tolist() if d["container"] == "list" else tuple(map(tuple, arr.tolist())))
         if any(len(f) != width for f in mesh["faces"]):
             site += ":padded"
